@@ -38,6 +38,9 @@ type leader struct {
 	repls map[uint64]*replication
 	wg    sync.WaitGroup
 
+	// replications of removed nodes, that may not have ended yet
+	stopped []*replication
+
 	// to receive updates from replicators
 	replUpdateCh chan replUpdate
 
@@ -116,6 +119,26 @@ func (l *leader) stopRepls() {
 		delete(l.repls, id)
 	}
 	l.wg.Wait()
+	l.stopped = nil
+}
+
+// logReaders returns the replications that read the log through views:
+// the running ones and the removed ones that have not ended yet.
+// log must not be compacted beyond what each of them allows
+func (l *leader) logReaders() []*replication {
+	var readers, stopped []*replication
+	for _, repl := range l.repls {
+		readers = append(readers, repl)
+	}
+	for _, repl := range l.stopped {
+		select {
+		case <-repl.done:
+		default:
+			readers, stopped = append(readers, repl), append(stopped, repl)
+		}
+	}
+	l.stopped = stopped
+	return readers
 }
 
 func (l *leader) storeEntry(ne *newEntry) {
@@ -185,6 +208,7 @@ func (l *leader) addReplication(n Node) {
 		log:            l.storage.log.ViewAt(l.removeLTE, l.lastLogIndex),
 		snaps:          l.storage.snaps,
 		stopCh:         make(chan struct{}),
+		done:           make(chan struct{}),
 		replUpdateCh:   l.replUpdateCh,
 		leaderUpdateCh: make(chan leaderUpdate, 1),
 	}
@@ -201,6 +225,7 @@ func (l *leader) addReplication(n Node) {
 	l.wg.Add(1)
 	go func() {
 		defer l.wg.Done()
+		defer close(repl.done)
 		repl.runLoop(req)
 		if trace {
 			println(repl, "repl.End")
@@ -422,7 +447,7 @@ func (l *leader) notifyFlr(includeConfig bool) {
 }
 
 func (l *leader) checkLogCompact() {
-	for _, repl := range l.repls {
+	for _, repl := range l.logReaders() {
 		if repl.status.removeLTE < l.removeLTE {
 			return
 		}
